@@ -145,8 +145,9 @@ func implementsLoose(t types.Type, iface *types.Interface) bool {
 	if _, ok := t.(*types.Pointer); !ok {
 		return types.Implements(types.NewPointer(t), iface)
 	}
-	// generic receivers: compare by method names only
-	if n := namedOf(t); n != nil && n.TypeParams().Len() > 0 {
+	// generic receivers or interfaces instantiated with a type parameter (walk.Visitor[E] inside walk.Generic):
+	// compare by method names only
+	if n := namedOf(t); n != nil && (n.TypeParams().Len() > 0 || ifaceMentionsTypeParam(iface)) {
 		ms := types.NewMethodSet(types.NewPointer(n))
 		for i := 0; i < iface.NumMethods(); i++ {
 			if ms.Lookup(iface.Method(i).Pkg(), iface.Method(i).Name()) == nil {
@@ -226,4 +227,39 @@ func enclosingFuncDecl(p *packages.Package, pos token.Pos) *ast.FuncDecl {
 		}
 	}
 	return nil
+}
+
+func ifaceMentionsTypeParam(iface *types.Interface) bool {
+	found := false
+	var visit func(t types.Type, depth int)
+	visit = func(t types.Type, depth int) {
+		if found || depth > 4 || t == nil {
+			return
+		}
+		switch x := t.(type) {
+		case *types.TypeParam:
+			found = true
+		case *types.Pointer:
+			visit(x.Elem(), depth+1)
+		case *types.Slice:
+			visit(x.Elem(), depth+1)
+		case *types.Named:
+			if ta := x.TypeArgs(); ta != nil {
+				for i := 0; i < ta.Len(); i++ {
+					visit(ta.At(i), depth+1)
+				}
+			}
+		case *types.Signature:
+			for i := 0; i < x.Params().Len(); i++ {
+				visit(x.Params().At(i).Type(), depth+1)
+			}
+			for i := 0; i < x.Results().Len(); i++ {
+				visit(x.Results().At(i).Type(), depth+1)
+			}
+		}
+	}
+	for i := 0; i < iface.NumMethods(); i++ {
+		visit(iface.Method(i).Type(), 0)
+	}
+	return found
 }
